@@ -9,6 +9,7 @@ out = driver.run_functions(sys.argv[1:], 'quick')
 print('wall', round(time.time() - t0, 1))
 rows = []
 for f in out:
+    if f['status'] != 'ok': print('FUNCTION', f['key'], f['status'], (f['reason'] or '')[-300:])
     for ob in f['obligations']:
         rows.append((ob.get('time', 0) or 0, f['key'], ob['name'] if 'name' in ob else ob.get('label'), ob['status'], ob.get('backend')))
 rows.sort(reverse=True)
